@@ -69,18 +69,19 @@ Definition py_is (a b : value) : bool :=
   | _, _ => false
   end.
 
-(* `a == b` *)
-Definition py_eq (h : heap) (a b : value) : res (bool * heap) :=
+(* `a == b`: the heap reached is returned even when the comparison raises
+   (a proxy resolved on the way stays resolved) *)
+Definition py_eq (h : heap) (a b : value) : res bool * heap :=
   match a, b with
-  | VObj x, VObj y => Ok (x =? y, h)
+  | VObj x, VObj y => (Ok (x =? y), h)
   | VProxy p, VObj y =>
-    match force_resolve h p with Ok (t, h1) => Ok (t =? y, h1) | Err e => Err e end
+    match force_resolve h p with Ok (t, h1) => (Ok (t =? y), h1) | Err e => (Err e, h) end
   | VObj x, VProxy q =>      (* object.__eq__ gives NotImplemented: reflected q.__eq__(x) *)
-    match force_resolve h q with Ok (t, h1) => Ok (t =? x, h1) | Err e => Err e end
+    match force_resolve h q with Ok (t, h1) => (Ok (t =? x), h1) | Err e => (Err e, h) end
   | VProxy p, VProxy q =>    (* p resolves, t == q is NotImplemented on the left, reflected q.__eq__(t) *)
     match force_resolve h p with
-    | Ok (t, h1) => match force_resolve h1 q with Ok (t', h2) => Ok (t' =? t, h2) | Err e => Err e end
-    | Err e => Err e
+    | Ok (t, h1) => match force_resolve h1 q with Ok (t', h2) => (Ok (t' =? t), h2) | Err e => (Err e, h1) end
+    | Err e => (Err e, h)
     end
   end.
 
@@ -114,51 +115,51 @@ Definition eq_in_lookup (s : lstate) (a b : value) : bool * lstate :=
   match snd s with
   | Some _ => (false, s)
   | None => match py_eq (fst s) a b with
-            | Ok (r, h') => (r, (h', None))
-            | Err e => (false, (fst s, Some e))
+            | (Ok r, h') => (r, (h', None))
+            | (Err e, h') => (false, (h', Some e))
             end
   end.
 
-Definition map_find (h : heap) (k : value) (m : list (entry value Z)) : res (option Z * heap) :=
+Definition map_find (h : heap) (k : value) (m : list (entry value Z)) : res (option Z) * heap :=
   match d_find py_is eq_in_lookup (h, None) (py_hash h k) k m with
-  | (_, (_, Some e)) => Err e
-  | (Some e, (h', None)) => Ok (Some (e_val e), h')
-  | (None, (h', None)) => Ok (None, h')
+  | (_, (h', Some e)) => (Err e, h')
+  | (Some e, (h', None)) => (Ok (Some (e_val e)), h')
+  | (None, (h', None)) => (Ok None, h')
   end.
 
 (* OrderedSet.add *)
-Definition ps_add (h : heap) (k : value) (s : pset) : res (pset * heap) :=
+Definition ps_add (h : heap) (k : value) (s : pset) : res pset * heap :=
   match map_find h k (p_map s) with
-  | Err e => Err e
-  | Ok (Some _, h') => Ok (s, h')
-  | Ok (None, h') =>
-    Ok ({| p_items := p_items s ++ [k];
+  | (Err e, h') => (Err e, h')
+  | (Ok (Some _), h') => (Ok s, h')
+  | (Ok None, h') =>
+    (Ok {| p_items := p_items s ++ [k];
            p_map := d_insert_new (py_hash h k) k (Z.of_nat (length (p_items s))) (p_map s) |}, h')
   end.
 
 (* key in s *)
-Definition ps_contains (h : heap) (k : value) (s : pset) : res (bool * heap) :=
+Definition ps_contains (h : heap) (k : value) (s : pset) : res bool * heap :=
   match map_find h k (p_map s) with
-  | Err e => Err e
-  | Ok (Some _, h') => Ok (true, h')
-  | Ok (None, h') => Ok (false, h')
+  | (Err e, h') => (Err e, h')
+  | (Ok (Some _), h') => (Ok true, h')
+  | (Ok None, h') => (Ok false, h')
   end.
 
 (* s.index(key): KeyError when absent *)
-Definition ps_index (h : heap) (k : value) (s : pset) : res (Z * heap) :=
+Definition ps_index (h : heap) (k : value) (s : pset) : res Z * heap :=
   match map_find h k (p_map s) with
-  | Err e => Err e
-  | Ok (Some i, h') => Ok (i, h')
-  | Ok (None, _) => Err KeyErr
+  | (Err e, h') => (Err e, h')
+  | (Ok (Some i), h') => (Ok i, h')
+  | (Ok None, h') => (Err KeyErr, h')
   end.
 
 (* what iteration + `==` finds: any(x == k for x in s) *)
-Fixpoint any_eq (h : heap) (k : value) (l : list value) : res (bool * heap) :=
+Fixpoint any_eq (h : heap) (k : value) (l : list value) : res bool * heap :=
   match l with
-  | [] => Ok (false, h)
+  | [] => (Ok false, h)
   | x :: r => match py_eq h x k with
-              | Err e => Err e
-              | Ok (true, h') => Ok (true, h')
-              | Ok (false, h') => any_eq h' k r
+              | (Err e, h') => (Err e, h')
+              | (Ok true, h') => (Ok true, h')
+              | (Ok false, h') => any_eq h' k r
               end
   end.
